@@ -140,6 +140,9 @@ Step mk(int task, const std::string &op, std::vector<long> a = {})
 
 Graph graphFor(long graphSeed, long maxFiles, long avoid)
 {
+    if (graphSeed < 0) {
+        return enumeratedGraph(-graphSeed - 1); // the enumerated family of small graphs
+    }
     Rng rng(mixSeed(uint64_t(graphSeed), "import-graph", 0));
     GraphParams gp;
     gp.maxFiles = maxFiles;
@@ -163,12 +166,18 @@ Plan generate(Rng &rng, const Opts &opts, uint64_t runIndex)
         Rng gr(mixSeed(uint64_t(opts.f("sweepseed", 1)), "import-sweep-graph", uint64_t(graphNo)));
         long graphSeed = long(gr.below(1u << 30));
         long avoid = opts.f("avoid", long(graphNo % 2));
+        if (opts.f("enum", 0) != 0) {
+            // the enumerated family instead of generated graphs: template (graphNo mod count), both importer modes in turn
+            graphSeed = -1 - (graphNo % enumeratedGraphCount());
+            avoid = 0;
+            p.cfg["enum"] = 1;
+        }
         p.cfg["graphseed"] = graphSeed;
         p.cfg["avoid"] = avoid;
         p.cfg["sweep"] = 1;
         Graph g = graphFor(graphSeed, maxFiles, avoid);
         auto faults = singleFaults(g);
-        long strict = long(gr.below(2));
+        long strict = opts.f("enum", 0) != 0 ? (graphNo / enumeratedGraphCount()) % 2 : long(gr.below(2));
         p.steps.push_back(mk(0, "IMPORTER", {strict}));
         p.steps.push_back(mk(0, "ROOT", {0}));
         p.steps.push_back(mk(0, "RESOLVE"));
